@@ -34,6 +34,7 @@
    target and the outputs of its dependencies - source files are part of the target, they do not
    change during the runs) and the hash `H` recorded on the outputs.  No proofs here. *)
 From PlzV Require Import Base.Harness.
+From PlzV Require Model.C31_Protocol.
 
 Definition mem (k : str) (l : list str) : bool := existsb (str_eqb k) l.
 
@@ -498,7 +499,13 @@ Inductive case :=
        (choices : list N)                                 (* drives the model's scheduler *)
        (ob_ok : list bool)                                (* exit status 0, per invocation *)
        (ob_outs : list (str * list (str * option str)))   (* label -> out -> content in plz-out at the end *)
-       (ob_runs : list (str * nat)).                      (* label -> lines in the action log (both phases) *)
+       (ob_runs : list (str * nat))                       (* label -> lines in the action log (both phases) *)
+(* a trial of the critical-section streams (harness/cmd/c31/crit.go): `invocations` real plz processes on ONE
+   target (a filegroup or not); interfered = one of them had its work on the target destroyed by another
+   (non-zero exit with the tell-tale messages, outputs differing from a solo build, or the command run again
+   by an invocation that had waited on the lock).  Model/C31_Protocol.v: the statement-level lock protocol
+   regenerated from buildTarget. *)
+| CaseCrit (filegroup : bool) (invocations : nat) (interfered : bool).
 
 Fixpoint alookup (k : str) (l : list (str * str)) : option str :=
   match l with
@@ -542,4 +549,5 @@ Definition check (c : case) : bool :=
           && check_outs r (st_store ckey st) ob_outs
           && forallb (fun ln => Nat.eqb (ran_total w (fst ln) + ran_total st (fst ln)) (snd ln)) ob_runs in
       wf_repo r && finished ckey w && good a && good b
+  | CaseCrit filegroup invocations interfered => C31_Protocol.crit_check filegroup invocations interfered
   end.
